@@ -264,6 +264,7 @@ StepAsm(P, orc, m, op) ==
     [] t = "csrr2" -> Adv(Def(P, Log([m EXCEPT !.scur = @ + 1], [k |-> "r", i |-> m.pc, addr |-> m.env[op.a[1]]]),
                               op.r, <<StatusVal(orc, m.scur)>>))
     [] t = "nop" -> Adv(m)
+    [] t = "mcycle" -> Adv(Log(m, [k |-> "op", i |-> m.pc, n |-> "llvm.inline_asm", s |-> op.sv, vals |-> <<>>, iv |-> <<>>, rt |-> <<>>, ams |-> <<>>]))
     [] t = "insn" -> Adv(Log(m, [k |-> "insn", i |-> m.pc, f7 |-> op.iv[3], rs1 |-> m.env[op.a[1]], rs2 |-> m.env[op.a[2]]]))
     [] t = "insn_rd" -> Adv(Def(P, Log([m EXCEPT !.ocur = @ + 1],
                                  [k |-> "insn", i |-> m.pc, f7 |-> op.iv[3], rs1 |-> m.env[op.a[1]], rs2 |-> m.env[op.a[2]]]),
